@@ -736,6 +736,13 @@ Proof. intros kp g cl nd y H. unfold recycle_partial_row. rewrite H, andb_false_
 
 (* Facts about the interpreter of Step.after_recycle that hold for EVERY statement list (so the proofs do
    not depend on the list the translator produced). *)
+(* Workflow.mark_step_pending as translated (executed symbolically per state by the translator) is what the
+   model hard-wires in mark_pending_row and EMarkPending: ignored for RUNNING and CHECKING, PENDING otherwise.
+   A changed method is translated all the same and breaks this lemma. *)
+Lemma mark_pending_translated : forall s,
+  mark_pending_writes (code s) = if sstate_eqb s Running || sstate_eqb s Checking then None else Some code_PENDING.
+Proof. intros s. destruct s; vm_compute; reflexivity. Qed.
+
 Lemma mark_pending_in_flight : forall z, in_flight z = true -> mark_pending_row z = z.
 Proof. intros z H. unfold mark_pending_row. rewrite H. reflexivity. Qed.
 
